@@ -49,6 +49,8 @@ type treq struct {
 	id  uint32
 
 	bodyCmd chan int64 // >0: the request body yields n bytes; 0: EOF
+	bodyClosed chan struct{} // closed by Request.Body.Close (the transport gives the body up): unblocks a pending Read
+	closeOnce  sync.Once
 	rcmd    chan hcmd  // response body: rd n / cb
 
 	mu        sync.Mutex
@@ -84,12 +86,17 @@ func (b ctlBody) Read(p []byte) (int, error) {
 		r.mu.Lock()
 		r.wantBody = true
 		r.mu.Unlock()
-		c, ok := <-r.bodyCmd
+		var c int64
+		var ok bool
+		select {
+		case c, ok = <-r.bodyCmd:
+		case <-r.bodyClosed:
+		}
 		r.mu.Lock()
 		r.wantBody = false
 		r.mu.Unlock()
 		if !ok {
-			return 0, errors.New("harness: connection torn down")
+			return 0, errors.New("harness: request body closed")
 		}
 		if c == 0 {
 			r.mu.Lock()
@@ -113,7 +120,10 @@ func (b ctlBody) Read(p []byte) (int, error) {
 	return m, nil
 }
 
-func (b ctlBody) Close() error { return nil }
+func (b ctlBody) Close() error {
+	b.r.closeOnce.Do(func() { close(b.r.bodyClosed) })
+	return nil
+}
 
 type tworld struct {
 	cfg    tconfig
@@ -254,7 +264,7 @@ func (w *tworld) handshake(iws int64) {
 func (w *tworld) openReq(idx int) *treq {
 	id := uint32(2*idx + 1)
 	ctx, cancel := context.WithCancel(context.Background())
-	r := &treq{idx: idx, id: id, bodyCmd: make(chan int64, 1), rcmd: make(chan hcmd, 1), cancel: cancel}
+	r := &treq{idx: idx, id: id, bodyCmd: make(chan int64, 1), bodyClosed: make(chan struct{}), rcmd: make(chan hcmd, 1), cancel: cancel}
 	w.rmu.Lock()
 	w.reqs[idx] = r
 	w.rmu.Unlock()
